@@ -36,6 +36,7 @@ func (s *Server) patchHandlerFunc(w http.ResponseWriter, r *http.Request) {
 	if publishTime == "" {
 		slog.Warn("publishTime query is required, but not provided in patch request")
 		http.Error(w, "publishTime query is required", http.StatusBadRequest)
+		return
 	}
 	old := &rec{}
 	oldQuery := removeQuery(origQuery, "nowMS")
@@ -49,6 +50,12 @@ func (s *Server) patchHandlerFunc(w http.ResponseWriter, r *http.Request) {
 	newQuery := removeQuery(origQuery, "publishTime")
 	r.URL.RawQuery = newQuery
 	s.livesimHandlerFunc(new, r)
+	for _, rc := range []*rec{old, new} {
+		if rc.status >= 400 { // No MPD to compare. Pass on the error response
+			http.Error(w, strings.TrimSpace(string(rc.body)), rc.status)
+			return
+		}
+	}
 
 	doc, expiration, err := patch.MPDDiff(old.body, new.body)
 	switch {
